@@ -18,7 +18,12 @@ def build_ops(rng, i, db, dumps, simpl, quick):
         if t["kind"] != "norowid":
             full = [l for l in (simpl.get("%d/%s" % (i, name)) or []) if l.startswith("row ")]
             ids = [int(l.split(" ")[1]) for l in full]
-            for rid in ([ids[0], ids[len(ids) // 2], ids[-1], min(ids[-1] + 1, 2 ** 63 - 1)] if ids else [1]):
+            # lookup targets: first / middle / last / absent, the rows with the largest records (the ones whose payload
+            # continues in overflow pages: the lookup then reads pages AFTER it has found the cell) and a few random ones
+            big = [int(l.split(" ")[1]) for l in sorted(full, key=len, reverse=True)[:3] if len(l) > 200]
+            some = [ids[rng.randrange(len(ids))] for _ in range(2 if quick else 6)] if ids else []
+            targets = ([ids[0], ids[len(ids) // 2], ids[-1], min(ids[-1] + 1, 2 ** 63 - 1)] + big + some) if ids else [1]
+            for rid in sorted(set(targets), key=targets.index):
                 out.append(("%s/rowid/%d" % (name, rid), "rowid %d %d" % (root, rid)))
                 if dump:
                     out.append(("%s/hselectrowid/%d" % (name, rid), "hselectrowid %s %s %d %s" % (dump, hl.hx(name), rid, cols)))
